@@ -40,6 +40,7 @@ type cell struct {
 	CliCA   bool   `json:"cliCA"`
 	PeerMax int    `json:"peerMax"`
 	Plain   bool   `json:"plain"`
+	Cfg     string `json:"cfg"` // ok | badCA | badKey
 }
 
 type obs struct {
@@ -132,14 +133,21 @@ func exporterCell(c cell) obs {
 	if c.CliCert != "none" {
 		tcfg.CertData, tcfg.KeyData = cli[c.CliCert].CertPEM, cli[c.CliCert].KeyPEM
 	}
+	switch c.Cfg {
+	case "badCA":
+		tcfg.CAData = []byte("this is not a PEM certificate")
+	case "badKey":
+		tcfg.CertData, tcfg.KeyData = cli["trusted"].CertPEM, cli["otherCA"].KeyPEM
+	}
 	var addr string
 	sawIPFIX := make(chan bool, 1)
 	var closeSrv func()
 	switch {
-	case c.Plain && c.Proto == "tls":
+	case (c.Plain || c.Cfg != "ok") && c.Proto == "tls":
 		ln, _ := net.Listen("tcp", "127.0.0.1:0")
 		addr = ln.Addr().String()
 		closeSrv = func() { ln.Close() }
+		ln.(*net.TCPListener).SetDeadline(time.Now().Add(1500 * time.Millisecond)) // the exporter may never connect
 		go func() {
 			conn, err := ln.Accept()
 			if err != nil {
@@ -152,7 +160,7 @@ func exporterCell(c cell) obs {
 			n, _ := conn.Read(buf)
 			sawIPFIX <- looksIPFIX(buf[:n])
 		}()
-	case c.Plain: // plaintext UDP peer against a DTLS exporter
+	case c.Plain || c.Cfg != "ok": // plaintext UDP peer against a DTLS exporter
 		pc, _ := net.ListenUDP("udp", &net.UDPAddr{IP: net.IPv4(127, 0, 0, 1)})
 		addr = pc.LocalAddr().String()
 		closeSrv = func() { pc.Close() }
@@ -265,7 +273,7 @@ func exporterCell(c cell) obs {
 	if saw {
 		o.Sent = true // an IPFIX message arrived in the clear
 	}
-	if c.Plain && !saw {
+	if (c.Plain || c.Cfg != "ok") && !saw {
 		o.Sent = false
 	}
 	closeSrv()
@@ -404,7 +412,17 @@ func main() {
 		cell{Side: "exporter", Proto: "tls", SrvCert: "trusted", SrvName: "match", CliCert: "none", PeerMax: 13, Plain: true},
 		cell{Side: "exporter", Proto: "tls", SrvCert: "trusted", SrvName: "unset", CliCert: "trusted", PeerMax: 13, Plain: true},
 		cell{Side: "exporter", Proto: "dtls", SrvCert: "trusted", SrvName: "match", CliCert: "none", PeerMax: 12, Plain: true},
+		// security settings present but unusable: the exporter must refuse, never connect in the clear
+		cell{Side: "exporter", Proto: "tls", SrvCert: "trusted", SrvName: "match", CliCert: "none", PeerMax: 13, Cfg: "badCA"},
+		cell{Side: "exporter", Proto: "tls", SrvCert: "trusted", SrvName: "unset", CliCert: "trusted", PeerMax: 13, Cfg: "badCA"},
+		cell{Side: "exporter", Proto: "tls", SrvCert: "trusted", SrvName: "match", CliCert: "trusted", PeerMax: 13, Cfg: "badKey"},
+		cell{Side: "exporter", Proto: "dtls", SrvCert: "trusted", SrvName: "match", CliCert: "none", PeerMax: 12, Cfg: "badCA"},
 	)
+	for i := range cells {
+		if cells[i].Cfg == "" {
+			cells[i].Cfg = "ok"
+		}
+	}
 	w.Reset(vt.Ev{})
 	// cells are independent: run up to 16 at a time, log in cell order
 	results := make([]obs, len(cells))
